@@ -207,6 +207,18 @@ def run(ctx):
         extra = reads - allowed[br]
         ctx.check(not extra and guarded, "C09.subset", f"C09.subset:{fname}", w.where(fn),
                   bad_msg=f"reads {sorted(extra)} outside the selection for membership {br}" + ("" if guarded else "; authorising user's membership read without the restricted-join flag"))
+    # the dispatcher in front of the branch functions: it only parses the state key and the membership and hands the state closure on - a read placed
+    # before the `match` happens for EVERY membership, i.e. also where the selection for that membership does not contain the pair
+    fn = w.fn(RM + "check_room_member")
+    try:
+        psd = dexe.paths(fn, [D.sym("ev"), D.sym("rules"), D.sym("create"), D.sym("fetch")])
+        dreads = sorted({e[0].rsplit("::", 1)[-1] + "(" + ", ".join(U.shows(e[1])[1:])[:60] + ")" for p in psd for e in p.effects})
+        ctx.floor("paths of the membership dispatcher check_room_member", len(psd), 5)
+        ctx.check(not dreads, "C09.subset", "C09.subset:check_room_member:dispatcher", w.where(fn),
+                  bad_msg=f"check_room_member reads {dreads} from the room state before dispatching on the membership: the read happens for every membership, "
+                          f"also for those whose auth-event selection does not contain that entry (an entry outside the selection changes the outcome)")
+    except D.Unrecognised as e:
+        ctx.unrecognised("C09.subset", "C09.subset:check_room_member:dispatcher", w.where(fn), str(e))
     # auth_check itself: create, sender membership, power levels only
     fn = w.fn(EA + "auth_check")
     ps = dexe.paths(fn, [D.sym("rules"), D.sym("ev"), D.sym("fetch")])
